@@ -102,6 +102,54 @@ func runC17(c *ShardCtx) {
 	fam := &family{gens: gens2, inputs: inputs, opts: []rtapi.RunOpts{{MaxExpr: 300}, {MaxExpr: 300, AllowInvalid: true}}, nontrivial: nontriv,
 		cmp: core.CmpOpts{IgnoreEncodingErrs: true}, extra: encodingOracle, confEvery: 11, confQuota: 1}
 	idx := 0
+	// histories: every ordered pair of calls over {valid, invalid inputs} x {default, AllowInvalidUTF8,
+	// the option given twice, the option preceded by its opposite (a wrapper's defaults in front of
+	// the caller's options), through ParseReader}: the second call returns what it returns alone - in
+	// particular its 'invalid encoding' errors do not depend on what an earlier call allowed
+	for hv := 0; hv < 2; hv++ {
+		idx++
+		if !c.Mine(idx) {
+			continue
+		}
+		g := wrap(peg.Star(peg.Choice(peg.Lit("a"), peg.Cls(true, false, "b"), peg.Any())))
+		gen := core.Gen{Optimize: hv == 1}
+		text := peg.Print(g, nil)
+		b := buildOrCount(c, text, gen)
+		if b == nil {
+			continue
+		}
+		c.Res.Grammars++
+		type hc struct {
+			in string
+			o  rtapi.RunOpts
+		}
+		var calls []hc
+		for _, in := range []string{"aa", "a\xffa", "\xc3", "\xe2\x82", "a\x80"} {
+			for _, o := range []rtapi.RunOpts{{MaxExpr: 300}, {MaxExpr: 300, AllowInvalid: true}, {MaxExpr: 300, AllowInvalid: true, Doubled: true}, {MaxExpr: 300, Shadowed: true}, {MaxExpr: 300, AllowInvalid: true, Shadowed: true},
+				{MaxExpr: 300, AllowInvalid: true, UseReader: true}, {MaxExpr: 300, Doubled: true}} {
+				calls = append(calls, hc{in, o})
+			}
+		}
+		key := func(o *rtapi.Obs) string { return fmt.Sprintf("val=%s errs=%v panic=%q", o.Val, msgs(o), o.Panic) }
+		solo := make([]string, len(calls))
+		for i, cl := range calls {
+			o := cl.o
+			solo[i] = key(b.Run([]byte(cl.in), &o, nil))
+		}
+		for i := range calls {
+			for j := range calls {
+				oi, oj := calls[i].o, calls[j].o
+				b.Run([]byte(calls[i].in), &oi, nil)
+				got := key(b.RunWarm([]byte(calls[j].in), &oj, nil))
+				c.Res.Evaluations++
+				c.Res.Nontrivial++
+				if got != solo[j] {
+					c.Report(Violation{Desc: fmt.Sprintf("Parse(%q, %s) after Parse(%q, %s) returns %s; alone it returns %s", calls[j].in, optsString(&calls[j].o), calls[i].in, optsString(&calls[i].o), got, solo[j]),
+						Grammar: text, Gen: gen.String(), Input: calls[j].in, InputHex: hexOf([]byte(calls[j].in)), Opts: optsString(&calls[j].o) + " after " + optsString(&calls[i].o)}, "")
+				}
+			}
+		}
+	}
 	// cross family (cross.go): every construct under every flag set on inputs with invalid bytes
 	{
 		var bad [][]byte
